@@ -5,7 +5,8 @@ import KeepVerif.Model.C46
 All theorems are over the definitions of `Gen/C46.lean` (regenerated from the code on every run):
 a changed constant or a changed start/timeout expression re-runs these proofs; a change that
 keeps the nesting re-proves, a change that breaks it makes the proof (hence the check) fail.
-Quantification: every action type and every start block `s : Nat`.
+Quantification: every action type and every coordination block `cb : Nat` (an action starts at
+the end of its coordination window: `start cb`).
 -/
 namespace KeepVerif.C46
 open KeepVerif.Gen.C46
@@ -33,9 +34,9 @@ theorem attempt_blocks_expression_matches_compiled :
 
 /-- the "invalid proposal expiry block" guard never fires for an expiry computed by `node.go`
 (so the `uint64` subtraction in the deadline expression never wraps). -/
-theorem guard_never_fails (a : Action) (s : Nat) : guardFails a s = false := by
+theorem guard_never_fails (a : Action) (cb : Nat) : guardFails a cb = false := by
   cases a <;>
-    simp only [guardFails, expiry, validity, proposalExpiry, depositSweepGuardFails, redemptionGuardFails,
+    simp only [guardFails, expiry, start, actionStart, windowEnd, coordinationDurationBlocks, validity, proposalExpiry, depositSweepGuardFails, redemptionGuardFails,
       movingFundsGuardFails, movedFundsSweepGuardFails, heartbeatGuardFails,
       depositSweepCompiledValidity, redemptionCompiledValidity, movingFundsCompiledValidity,
       movedFundsSweepCompiledValidity, heartbeatCompiledValidity,
@@ -45,7 +46,8 @@ theorem guard_never_fails (a : Action) (s : Nat) : guardFails a s = false := by
 
 /-- unfolding set shared by the arithmetic proofs. -/
 macro "c46_unfold" : tactic => `(tactic|
-  simp only [signStart, signEnd, expiry, validity, margin, oneLoop, claimEnd, proposalExpiry,
+  simp only [signStart, signEnd, expiry, start, actionStart, windowEnd, coordinationDurationBlocks, validity, margin,
+    oneLoop, claimEnd, proposalExpiry,
     signingLoopTimeout, signingAttemptMaximumBlocks, signingAttemptsLimit,
     signingAttemptAnnouncementDelayBlocks, signingAttemptAnnouncementActiveBlocks,
     signingAttemptMaximumProtocolBlocks, signingAttemptCoolDownBlocks,
@@ -60,29 +62,29 @@ macro "c46_unfold" : tactic => `(tactic|
     movingFundsCommitmentConfirmationBlocks])
 
 /-- C46 (a): signing starts no earlier than the action start. -/
-theorem sign_start_ge_start (a : Action) (s : Nat) : s ≤ signStart a s := by
+theorem sign_start_ge_start (a : Action) (cb : Nat) : start cb ≤ signStart a cb := by
   cases a <;> c46_unfold <;> omega
 
 /-- C46 (b): signing ends at least the documented safety margin before the proposal expires. -/
-theorem sign_end_le_expiry_minus_margin (a : Action) (s : Nat) :
-    signEnd a s + margin a ≤ expiry a s := by
+theorem sign_end_le_expiry_minus_margin (a : Action) (cb : Nat) :
+    signEnd a cb + margin a ≤ expiry a cb := by
   cases a <;> c46_unfold <;> omega
 
 /-- C46 (c): the signing window is long enough for one complete signing retry loop of a single
 message (`signingAttemptsLimit · signingAttemptMaximumBlocks`). -/
-theorem sign_window_ge_one_loop (a : Action) (s : Nat) :
-    signStart a s + oneLoop ≤ signEnd a s := by
+theorem sign_window_ge_one_loop (a : Action) (cb : Nat) :
+    signStart a cb + oneLoop ≤ signEnd a cb := by
   cases a <;> c46_unfold <;> omega
 
 /-- equivalently: the retry loop's own timeout block (`signingExecutor.sign`) is reached before
 the action's signing context is cancelled. -/
-theorem loop_timeout_before_sign_deadline (a : Action) (s : Nat) :
-    signingLoopTimeout (signStart a s) ≤ signEnd a s := by
+theorem loop_timeout_before_sign_deadline (a : Action) (cb : Nat) :
+    signingLoopTimeout (signStart a cb) ≤ signEnd a cb := by
   cases a <;> c46_unfold <;> omega
 
 /-- the signing window is non-empty and inside `[start, expiry]`. -/
-theorem sign_window_inside (a : Action) (s : Nat) :
-    s ≤ signStart a s ∧ signStart a s < signEnd a s ∧ signEnd a s ≤ expiry a s := by
+theorem sign_window_inside (a : Action) (cb : Nat) :
+    start cb ≤ signStart a cb ∧ signStart a cb < signEnd a cb ∧ signEnd a cb ≤ expiry a cb := by
   cases a <;> c46_unfold <;> omega
 
 /-- C46 (d), transaction actions: at the nominal 12 s block time the broadcast step (timeout plus
@@ -92,15 +94,20 @@ theorem post_signing_fits (a : Action) : bcastSeconds a + delaySeconds a ≤ mar
 
 /-- C46 (d), heartbeat: the inactivity claim deadline lies after the signing deadline and the
 documented safety margin before the expiry. -/
-theorem heartbeat_claim_nested (s : Nat) :
-    signEnd .heartbeat s ≤ claimEnd s ∧
-    claimEnd s + heartbeatTimeoutSafetyMarginBlocks = expiry .heartbeat s ∧
-    claimEnd s ≤ expiry .heartbeat s := by
+theorem heartbeat_claim_nested (cb : Nat) :
+    signEnd .heartbeat cb ≤ claimEnd cb ∧
+    claimEnd cb + heartbeatTimeoutSafetyMarginBlocks = expiry .heartbeat cb ∧
+    claimEnd cb ≤ expiry .heartbeat cb := by
   c46_unfold; omega
 
 /-- the expiry is the start plus the documented validity. -/
-theorem expiry_is_start_plus_validity (a : Action) (s : Nat) : expiry a s = s + validityConst a := by
+theorem expiry_is_start_plus_validity (a : Action) (cb : Nat) : expiry a cb = start cb + validityConst a := by
   rw [← validity_method_is_constant]; rfl
+
+/-- the action starts exactly at the end of its coordination window, as the compiled
+`coordinationWindow.endBlock` computes it. -/
+theorem start_is_window_end (cb : Nat) : start cb = cb + coordinationDurationBlocks ∧
+    windowEnd 1000 = compiledWindowEndOf1000 := ⟨rfl, by decide⟩
 
 /-- one retry loop today: 5 × 41 blocks (closed fact, re-checked on regenerated numerals). -/
 theorem one_loop_value : oneLoop = signingAttemptsLimit * compiledSigningAttemptMaximumBlocks := by decide
@@ -109,13 +116,13 @@ theorem one_loop_value : oneLoop = signingAttemptsLimit * compiledSigningAttempt
 
 /-- Soundness link (transaction actions): the monitor accepts the deadlines the model computes,
 for every start block. -/
-theorem holdsTx_model (a : Action) (s : Nat) (h : a ≠ .heartbeat) :
-    holdsTx a s (expiry a s) (signStart a s) (signEnd a s) (compiledMargin a)
+theorem holdsTx_model (a : Action) (cb : Nat) (h : a ≠ .heartbeat) :
+    holdsTx a (start cb) (expiry a cb) (signStart a cb) (signEnd a cb) (compiledMargin a)
       (compiledBcastSeconds a) (delaySeconds a) = true := by
-  have h1 := expiry_is_start_plus_validity a s
-  have h2 := sign_start_ge_start a s
-  have h3 := sign_end_le_expiry_minus_margin a s
-  have h4 := sign_window_ge_one_loop a s
+  have h1 := expiry_is_start_plus_validity a cb
+  have h2 := sign_start_ge_start a cb
+  have h3 := sign_end_le_expiry_minus_margin a cb
+  have h4 := sign_window_ge_one_loop a cb
   have h5 := constructor_wires_margin a
   have h6 := post_signing_fits a
   have h7 := constructor_wires_broadcast_timeout a
@@ -124,14 +131,14 @@ theorem holdsTx_model (a : Action) (s : Nat) (h : a ≠ .heartbeat) :
   exact ⟨⟨⟨⟨⟨h1, h2⟩, h3⟩, h4⟩, h5⟩, h6⟩
 
 /-- Soundness link (heartbeat): any number of signing deadlines and claim deadlines. -/
-theorem holdsHb_model (s n m k : Nat) :
-    holdsHb s (expiry .heartbeat s) (List.replicate k (signStart .heartbeat s))
-      (List.replicate n (signEnd .heartbeat s) ++ List.replicate m (claimEnd s)) = true := by
-  have h1 := expiry_is_start_plus_validity .heartbeat s
-  have h2 := sign_start_ge_start .heartbeat s
-  have h3 := sign_end_le_expiry_minus_margin .heartbeat s
-  have h4 := sign_window_ge_one_loop .heartbeat s
-  have h5 := heartbeat_claim_nested s
+theorem holdsHb_model (cb n m k : Nat) :
+    holdsHb (start cb) (expiry .heartbeat cb) (List.replicate k (signStart .heartbeat cb))
+      (List.replicate n (signEnd .heartbeat cb) ++ List.replicate m (claimEnd cb)) = true := by
+  have h1 := expiry_is_start_plus_validity .heartbeat cb
+  have h2 := sign_start_ge_start .heartbeat cb
+  have h3 := sign_end_le_expiry_minus_margin .heartbeat cb
+  have h4 := sign_window_ge_one_loop .heartbeat cb
+  have h5 := heartbeat_claim_nested cb
   simp only [margin, heartbeatInactivityClaimValidityBlocks, heartbeatTimeoutSafetyMarginBlocks] at h3 h5
   simp only [holdsHb, margin, heartbeatInactivityClaimValidityBlocks, heartbeatTimeoutSafetyMarginBlocks, Bool.and_eq_true, decide_eq_true_eq, List.all_eq_true, List.mem_replicate,
     List.mem_append, Bool.or_eq_true]
@@ -154,15 +161,15 @@ theorem holdsHb_model (s n m k : Nat) :
 constant change keeps them true): the model's own deadlines are accepted; a signing window one
 block shorter than a retry loop, a deadline one block inside the safety margin, a start before
 the action start and a broadcast longer than the margin are rejected. -/
-example : holdsTx .redemption 1000 (expiry .redemption 1000) (signStart .redemption 1000)
+example : holdsTx .redemption (start 1000) (expiry .redemption 1000) (signStart .redemption 1000)
     (signEnd .redemption 1000) (margin .redemption) (bcastSeconds .redemption) (delaySeconds .redemption) = true := by decide
-example : holdsTx .redemption 1000 (expiry .redemption 1000) 1000 (1000 + oneLoop - 1)
+example : holdsTx .redemption (start 1000) (expiry .redemption 1000) (start 1000) (start 1000 + oneLoop - 1)
     (margin .redemption) (bcastSeconds .redemption) (delaySeconds .redemption) = false := by decide
-example : holdsTx .redemption 1000 (expiry .redemption 1000) 1000 (expiry .redemption 1000 - margin .redemption + 1)
+example : holdsTx .redemption (start 1000) (expiry .redemption 1000) (start 1000) (expiry .redemption 1000 - margin .redemption + 1)
     (margin .redemption) (bcastSeconds .redemption) (delaySeconds .redemption) = false := by decide
-example : holdsTx .redemption 1000 (expiry .redemption 1000) 999 (signEnd .redemption 1000)
+example : holdsTx .redemption (start 1000) (expiry .redemption 1000) (start 1000 - 1) (signEnd .redemption 1000)
     (margin .redemption) (bcastSeconds .redemption) (delaySeconds .redemption) = false := by decide
-example : holdsTx .redemption 1000 (expiry .redemption 1000) 1000 (signEnd .redemption 1000)
+example : holdsTx .redemption (start 1000) (expiry .redemption 1000) (start 1000) (signEnd .redemption 1000)
     (margin .redemption) (margin .redemption * blockSeconds + 1) 0 = false := by decide
 
 end KeepVerif.C46
